@@ -688,6 +688,33 @@ type SDeep struct {
 	Level int32
 }
 
+// STagged: struct tags are for encoders; a formula reads fields by their Go names
+type STagged struct {
+	Name        string
+	DisplayName string `json:"Name"`
+	Balance     int    `json:"balance"`
+	Other       int    `json:"Balance" formula:"Name"`
+	Lower       string `json:"lower" xml:"Name,attr"`
+}
+
+// two struct types that print alike ("main.row") with the same field names at different positions
+func rowA() interface{} {
+	type row struct {
+		Qty  int
+		Part string
+	}
+	return row{Qty: 7, Part: "nut"}
+}
+
+func rowB() interface{} {
+	type row struct {
+		Part string
+		Note string
+		Qty  int
+	}
+	return row{Part: "bolt", Note: "n", Qty: 9}
+}
+
 type structEntry struct {
 	val    interface{}
 	fields []string // name, wire value, ...
@@ -695,7 +722,8 @@ type structEntry struct {
 
 var structPalette []structEntry
 
-var structTypes = []reflect.Type{reflect.TypeOf(SBase{}), reflect.TypeOf(SInner{}), reflect.TypeOf(SAcct{}), reflect.TypeOf(SPtrEmb{}), reflect.TypeOf(SShadow{}), reflect.TypeOf(SDeep{})}
+var structTypes = []reflect.Type{reflect.TypeOf(SBase{}), reflect.TypeOf(SInner{}), reflect.TypeOf(SAcct{}), reflect.TypeOf(SPtrEmb{}), reflect.TypeOf(SShadow{}), reflect.TypeOf(SDeep{}),
+	reflect.TypeOf(STagged{}), reflect.TypeOf(rowA()), reflect.TypeOf(rowB())}
 
 func structTypeID(t reflect.Type) int {
 	for i, x := range structTypes {
@@ -749,6 +777,11 @@ func init() {
 	structPalette = append(structPalette, structEntry{SDeep{SPtrEmb: SPtrEmb{SInner: &SInner{K: 77, S: "deep"}, Name: "mid"}, Level: 2}, nil})
 	structPalette = append(structPalette, structEntry{SPtrEmb{SInner: &SInner{K: 77, S: "deep"}, Name: "mid"}, []string{"K", "Ii64:77", "S", str("deep"), "Name", str("mid"), "SInner", "X1"}}) // 10
 	structPalette[9].fields = []string{"K", "Ii64:77", "S", str("deep"), "Name", str("mid"), "SInner", "X1", "SPtrEmb", "", "Level", "Ii32:2"}
+	// 11: tags that name other fields; 12, 13: two types printed alike
+	structPalette = append(structPalette, structEntry{STagged{Name: "alice", DisplayName: "Alice A.", Balance: 42, Other: 500, Lower: "lo"},
+		[]string{"Name", str("alice"), "DisplayName", str("Alice A."), "Balance", "Ii:42", "Other", "Ii:500", "Lower", str("lo")}})
+	structPalette = append(structPalette, structEntry{rowA(), []string{"Qty", "Ii:7", "Part", str("nut")}})
+	structPalette = append(structPalette, structEntry{rowB(), []string{"Part", str("bolt"), "Note", str("n"), "Qty", "Ii:9"}})
 	// nested struct wires are filled in after all entries exist
 	fix := func(id int, name string, sub int) {
 		f := structPalette[id].fields
